@@ -132,7 +132,8 @@ class Renderer:
         if k == 'n':
             if isinstance(v, float) and v.is_integer():
                 v = int(v)
-            assert v >= 0, 'negative literals only as cell constants'
+            # (negative literals are generated as function arguments only,
+            # never as operands of an operator: sign runs are C01's business)
             return repr(v)
         if k == 's':
             return '"%s"' % v.replace('"', '""')
